@@ -18,3 +18,4 @@ import MicroHttp.Props.Tables
 #print axioms MicroHttp.Tables.client_enqueue
 #print axioms MicroHttp.Tables.no_shared_state
 #print axioms MicroHttp.Tables.no_interior_mutability
+#print axioms MicroHttp.Tables.client_new
